@@ -218,6 +218,9 @@ func ROptStack(c *core.Ctx) {
 		closeBlk := &ast.BlockStmt{List: closeArm.Body}
 		c.Check(count(openBlk, pop) == 0, name+" / no popOptions in the `(` arm", open.Pos(), "an option-only group (?i) must keep the options it set (popKeepOptions); popOptions would restore the old ones")
 		c.Check(count(closeBlk, popKeep) == 0 && count(closeBlk, pop) >= 1, name+" / the `)` arm restores options with popOptions", closeArm.Pos(), "options set inside a group end with the group")
+		// an option-only group (?i) keeps what it set: both passes need a popKeepOptions path (after scanOptions / when
+		// scanGroupOpen opened no group); without it the `)` arm restores the old options and the passes disagree
+		c.Check(count(openBlk, popKeep) >= 1, name+" / the `(` arm has a popKeepOptions path for option-only groups", open.Pos(), "no popKeepOptions in the `(` arm: an option-only group (?n) / (?x) is undone by the popOptions of its `)` in this pass only")
 		// whole function: pops only in those arms
 		c.Check(count(fd.Body, pop) == count(closeBlk, pop) && count(fd.Body, popKeep) == count(openBlk, popKeep) && count(fd.Body, push) == count(openBlk, push),
 			name+" / option stack touched only in the paren arms", fd.Pos(), "push/pop calls outside `case '('` / `case ')'`")
